@@ -127,6 +127,85 @@ def edit(v0: int, v1: int, v2: int, z: int, g: int, p1_1: int, p2_1: int, p1_2: 
     return _body([v0, v1, v2], [-1, p1_1, p1_2], [-1, p2_1, p2_2], [T0, T1, T2], z, g, q1, t1, ke, te, ek, w, recalc, second)
 
 
+@harness
+def nonevalue(v: int, w: int, nt: int, t: int, ke: int, asg: int, recalc: bool, second: int) -> bool:
+    """None as a held value (allow_none): an assigned None is the value, is served without running the formula, survives;
+    a computed None is held like any other value."""
+    nt, t, ke, asg, recalc, second = pick(nt, 0, 2), pick(t, 0, 2), pick(ke, 0, 2), pick(asg, 0, 2), pickb(recalc), pick(second, 0, 3)
+    with notrace():
+        m = new_model("NV")
+        S = m.new_space("S")
+        m.hit = hit
+        S.allow_none = True
+        S.v, S.w, S.nt = 0, 0, -1
+        S.new_cells("opt", formula="def opt(t):\n    hit(0, t)\n    return None if t == nt else v + t\n")
+        S.new_cells("tot", formula="def tot(t):\n    hit(1, t)\n    o = opt(t)\n    return (0 if o is None else o) + w\n")
+        S.v, S.w, S.nt = v, w, nt
+    opt, tot = S.cells["opt"], S.cells["tot"]
+    inputs = {}
+
+    def exp_opt(k):
+        if k in inputs:
+            return inputs[k]
+        return None if k == nt else v + k
+
+    def exp_tot(k):
+        o = exp_opt(k)
+        return (0 if o is None else o) + w
+    label("computed None at t=%d; request tot(%d)" % (nt, t))
+    r = call(tot, t)
+    if not check(r[0] == "ok" and r[1] == exp_tot(t), "value with a None-valued precedent", lambda: r):
+        return False
+    n0 = len(ctx.hits)
+    r = call(opt, t)
+    if not check(r[0] == "ok" and ((r[1] is None) if exp_opt(t) is None else r[1] == exp_opt(t)), "held (possibly None) value served", lambda: r):
+        return False
+    if not check(len(ctx.hits) == n0, "a held value of None must not make the formula run again", lambda: ctx.hits[n0:]):
+        return False
+    if recalc:
+        mx.set_recalc(True)
+    val = (None, 7, w)[asg]
+    label("assign opt[%d] = %s%s" % (ke, ("None", "7", "w")[asg], " (recalc on)" if recalc else ""))
+    n1 = len(ctx.hits)
+    e = call(opt.__setitem__, ke, val)
+    mx.set_recalc(False)
+    if not check(e[0] == "ok", "assignment raised", lambda: e):
+        return False
+    inputs[ke] = val
+    with notrace():
+        isin = opt.is_input(ke)
+        ran = [h for h in ctx.hits[n1:] if h[0] == 0 and h[1] == ke]
+    if not check(isin and not ran, "assigned element is input and its formula did not run", lambda: (isin, ran)):
+        return False
+    n2 = len(ctx.hits)
+    r = call(opt, ke)
+    if not check(r[0] == "ok" and ((r[1] is None) if val is None else r[1] == val) and len(ctx.hits) == n2,
+                 "the assigned value (None included) is what the cells returns, without running the formula", lambda: (r, ctx.hits[n2:])):
+        return False
+    r = call(tot, ke)
+    if not check(r[0] == "ok" and r[1] == exp_tot(ke), "dependant computed from the assigned value", lambda: (r, exp_tot(ke))):
+        return False
+    label("then %s" % ("nothing", "opt.clear()", "another assignment", "reference change")[second])
+    if second == 1:
+        opt.clear()
+    elif second == 2:
+        opt[(ke + 1) % 3] = 5
+        inputs[(ke + 1) % 3] = 5
+    elif second == 3:
+        S.w = w + 1
+        w = w + 1
+    with notrace():
+        still = ke in [k[0] if isinstance(k, tuple) else k for k in dict(opt)] and opt.is_input(ke)
+    if not check(still, "assigned input lost by a later operation"):
+        return False
+    n3 = len(ctx.hits)
+    r = call(opt, ke)
+    if not check(r[0] == "ok" and ((r[1] is None) if val is None else r[1] == val) and len(ctx.hits) == n3, "assigned value still served", lambda: r):
+        return False
+    r = call(tot, ke)
+    return check(r[0] == "ok" and r[1] == exp_tot(ke), "dependant after the later operation", lambda: (r, exp_tot(ke)))
+
+
 _NAT = dict(v0=1, v1=2, v2=3, z=4, g=5, p1_1=0, p2_1=-1, p1_2=1, p2_2=0, T0=False, T1=True, T2=True)
 
 
@@ -156,4 +235,12 @@ QUERIES = [
                                "dag": "pointers symbolic (36 shapes); recursion switches symbolic in thorough, T2 only in quick"},
           outside=["more than one value edit followed by one further operation", "cells with several parameters", "N > 3"]),
 ]
+QUERIES.append(
+    Query("nonevalue", nonevalue, pre=["0 <= nt <= 2", "0 <= t <= 2", "0 <= ke <= 2", "0 <= asg <= 2", "0 <= second <= 3"],
+          partitions=lambda tier, seed: [dict(asg=a_, second=s_) for a_ in range(3) for s_ in range(4)],
+          natives=[dict(v=3, w=4, nt=n_, t=t_, ke=k_, asg=a_, recalc=r_, second=s_) for (n_, t_, k_, a_, r_, s_) in
+                   ((1, 1, 1, 0, False, 1), (0, 1, 1, 0, True, 2), (2, 2, 0, 1, False, 3), (1, 0, 1, 2, True, 0), (1, 1, 2, 0, False, 3))],
+          bounds=lambda tier: {"model": "opt(t) returns None at one symbolic t, tot(t) depends on it; allow_none on the space", "assigned": ["None", "7", "symbolic w"],
+                               "t": "0..2", "recalc": [False, True], "follow_up": ["none", "clear()", "assignment elsewhere", "reference change"]},
+          outside=["None in cells with several parameters"]))
 BUDGET = {"quick": 400, "thorough": 1200}
